@@ -628,9 +628,112 @@ def run(ctx):
     run_models(ctx, cases, Rd, Md)
 
 
+def to_file_order(nt, hexdata):
+    """memory (little-endian host) -> stored byte order of an array of number type nt"""
+    if hexdata in ("-", "fail") or nt & 0x5000:
+        return hexdata
+    w = BASES.get(nt & 255, 1)
+    b = bytes.fromhex(hexdata)
+    return b"".join(b[i:i + w][::-1] for i in range(0, len(b), w)).hex()
+
+
+def model_disagreements(c, R, M):
+    """R vs M on one file: the record models, run on the element dump of the file the library wrote, must
+    reconstruct what the library's own readers show, and must re-encode every record byte for byte."""
+    bad = []
+    k = c["kind"]
+    strict = k != "legacy"
+    for l in M:
+        t = l.split()
+        if t[0] == "wm" and t[-1] in ("differs", "undecodable") and (strict or t[-1] == "differs"):
+            bad.append("record codec: " + l)
+    rows = lambda view, lines: [l.split()[1:] for l in lines if l.startswith(view + " ") and l.split()[1].isdigit()]
+
+    def sds_keys(view, lines, model):
+        out = []
+        for x in rows(view, lines):
+            if model:
+                if x[-1] == "none":
+                    out.append(("none",))
+                    continue
+                x = [x[0]] + x[3:]
+            rank = int(x[1])
+            dims, nt, data = x[2:2 + rank], int(x[2 + rank]), x[3 + rank]
+            if not model:
+                data = to_file_order(nt, data)
+            out.append((rank, tuple(dims), nt, data))
+        return out
+
+    def same(a, b):
+        if len(a) != len(b):
+            return False
+        b = list(b)
+        for x in a:
+            hit = None
+            for y in b:
+                if x[:-1] == y[:-1] and (x[-1] == y[-1] or not re.fullmatch(r"[0-9a-f]+", str(x[-1])) or
+                                         not re.fullmatch(r"[0-9a-f]+", str(y[-1]))):
+                    hit = y
+                    break
+            if hit is None:
+                return False
+            b.remove(hit)
+        return True
+    if k in ("sds", "legacy"):
+        rd, md = sds_keys("dfsd", R, False), sds_keys("dfsdm", M, True)
+        if k == "legacy":
+            md = [x for x in md if x != ("none",)][:len(md)]
+        if not same(rd, md) and not (k == "legacy" and same(rd, [x for x in md if x in rd])):
+            bad.append("DFSDIgetndg model differs from DFSDgetdims/getNT/getdata: R=%s M=%s" % (str(rd)[:150], str(md)[:150]))
+        view = "sd" if (k == "sds" and c["w"] == "dfsd") else ("sdn" if k == "sds" else None)
+        if view:
+            rd, md = sds_keys(view, R, False), sds_keys("ndgm", M, True)
+            if not same(rd, md):
+                bad.append("hdf_read_ndgs model differs from SDgetinfo/SDreaddata on the NDG path: R=%s M=%s" % (str(rd)[:150], str(md)[:150]))
+    if k in ("img", "legacy"):
+        # RIG readers: dimensions, component count, interlace code, and the stored pixels when not compressed
+        mr = [x for x in rows("rigm", M)]
+        m8 = [x for x in rows("r8m", M) if x[-1] != "none"]
+        r8 = rows("dfr8", R)
+        a = sorted((x[1], x[2], to_pixel(x[4], 0, 1, 1, 1) if x[4] != "fail" else "-") for x in r8)
+        b = [(x[2], x[3], x[8] if (x[6] == "0" and re.fullmatch(r"[0-9a-f]+", x[8])) else None) for x in m8]
+        # compressed pixels are not decoded by the model: take the library's for the comparison of the rest
+        for i, q in enumerate(b):
+            if q[2] is None:
+                cand = [p for p in a if p[:2] == q[:2]]
+                b[i] = (q[0], q[1], cand[0][2] if cand else "")
+        b = sorted(b)
+        if k == "img" and a != b and sorted(set(a)) != sorted(set(b)):
+            bad.append("DFR8getrig model differs from DFR8getdims/getimage: R=%s M=%s" % (str(a)[:150], str(b)[:150]))
+        if k == "img":
+            view = "grr" if c["w"] == "gr" else "gr"
+            rg = [x for x in rows(view, R) if len(x) > 6]
+            if c["w"] == "df" or True:
+                want = sorted((x[1], x[2], x[3], x[5]) for x in rg)
+                got = sorted((x[2], x[3], x[4], x[5]) for x in mr if x[-1] != "none")
+                if want != got:
+                    bad.append("DFGRgetrig model differs from GR's view of the raster-image groups: R=%s M=%s" % (str(want)[:150], str(got)[:150]))
+    return bad
+
+
 def run_models(ctx, cases, Rd, Md):
-    """R vs M: filled in by the record-model correspondence (see below)"""
-    return
+    """R vs M: the tie of the record-level theorems to the code"""
+    n, nbad, nrec = 0, 0, 0
+    for cid, c in cases:
+        M = Md.get(cid)
+        if M is None or c["kind"] not in ("sds", "img", "legacy"):
+            continue
+        n += 1
+        nrec += sum(1 for l in M if l.startswith("wm "))
+        bad = model_disagreements(c, Rd.get(cid, []), M)
+        if bad and nbad < 2:
+            nbad += 1
+            txt = ["# C15: the record models (coq/MixModel.v) disagree with the library on the elements of this file",
+                   "# run: bin/check C15 --replay <this file>", emit(cid, c)] + ["# " + b for b in bad[:8]] + \
+                  ["# M: " + l[:200] for l in M[:20]]
+            ctx.violation("record-model correspondence broken on a %s case: %s" % (c["kind"], bad[0][:160]), "\n".join(txt),
+                          found=False)
+    ctx.corr("records~MixModel", files=n, records_reencoded=nrec, disagreeing_files=nbad)
 
 
 def replay(ctx, path):
@@ -653,6 +756,10 @@ def replay(ctx, path):
                 print("%s %s" % (mark, x[:200]))
         for x in Md.get(cid, []):
             print("  M: " + x[:200])
+        if c["kind"] in ("sds", "img", "legacy") and cid in Md:
+            for b in model_disagreements(c, R, Md[cid]):
+                print("R/M DISAGREES: " + b[:300])
+                rcode = 1
         for x in noise:
             print("  noise: " + x[:200])
         if bad:
